@@ -57,6 +57,7 @@ func TorgersonScaling(dst *mat.Dense, eigdst []float64, dis mat.Symmetric) (k in
 	var ed mat.EigenSym
 	ok := ed.Factorize(b, true)
 	if !ok {
+		dst.Reset()
 		return 0, eigdst
 	}
 	ed.VectorsTo(dst)
